@@ -12,6 +12,12 @@ with numeric tokens as x<bits of the double the reader would get> (float rows ro
 tokens as w<word> -- the output format of the model driver.  No re-implementation of the writer: this script only
 parses the XML text that the real writer produced.
 
+Lines  i <compiler settings> (B ... (G ...)*)* # <hex of the MJCF document>  (inertia-source model, bodies named b1.. in
+the order of the op line, geoms named g<id>) go through op `inert` of the same binary; printed from the saved text and
+the two compiled models:   ok C <those of inertiafromgeom,discardvisual,inertiagrouprange,saveinertial present on the
+saved <compiler>, or -> B <1 iff the body has an <inertial> child>:<ids of its geoms joined by +, or ->:<bits of
+body_mass in the original model>:<bits of body_mass in the model compiled from the saved text, or fail> B ...
+
 usage: c32_saved_attrs.py <c32_roundtrip binary> <McjfDefaults.json>
 """
 import json
@@ -54,6 +60,26 @@ def show(elem, rows):
     return ";".join(parts) if parts else "-"
 
 
+def inertial(s, nbody):
+    text, m0, m1 = s
+    root = ET.fromstring(text)
+    comp = root.find("./compiler")
+    ca = [a for a in ("inertiafromgeom", "discardvisual", "inertiagrouprange", "saveinertial")
+          if comp is not None and a in comp.attrib]
+    bodies = {b.get("name"): b for b in root.iter("body")}
+    mass0 = dict(x.rsplit(":", 1) for x in m0.split(",")) if m0 != "-" else {}
+    mass1 = dict(x.rsplit(":", 1) for x in m1.split(",")) if m1 not in ("-", "fail") else {}
+    parts = []
+    for i in range(1, nbody + 1):
+        b = bodies.get("b%d" % i)
+        if b is None:
+            return "err body b%d not found in the saved text" % i
+        ids = [g.get("name", "")[1:] for g in b.findall("geom")]
+        parts.append("B %d:%s:%s:%s" % (b.find("inertial") is not None, "+".join(ids) if ids else "-", mass0.get("b%d" % i, "?"),
+                                        "fail" if m1 == "fail" else mass1.get("b%d" % i, "?")))
+    return "ok C %s %s" % (",".join(ca) if ca else "-", " ".join(parts))
+
+
 def main():
     binary, jpath = sys.argv[1], sys.argv[2]
     tables = {t["name"]: t["rows"] for t in json.load(open(jpath))["tables"]}
@@ -63,16 +89,21 @@ def main():
         head, _, tail = l.partition(" # ")
         w = head.split(" ")
         t = tail.split(" ")
+        if w[0] == "i" and len(t) == 1:
+            reqs.append(("i", w.count("B"), None, t[0]))
+            continue
         if w[0] != "w" or len(t) != 3 or w[1] not in tables:
             reqs.append(None)
             continue
         reqs.append((w[1], t[0], t[1], t[2]))
-    inp = "prec 17\n" + "".join("save d%d %s\n" % (i, r[3]) for i, r in enumerate(reqs) if r)
+    inp = "prec 17\n" + "".join("%s d%d %s\n" % ("inert" if r[0] == "i" else "save", i, r[3]) for i, r in enumerate(reqs) if r)
     p = subprocess.run([binary], input=inp, capture_output=True, text=True)
     saved = {}
     for o in p.stdout.split("\n"):
         w = o.split(" ")
-        if len(w) >= 3 and w[0].startswith("d") and w[1] == "saved":
+        if len(w) >= 5 and w[0].startswith("d") and w[1] == "saved":
+            saved[int(w[0][1:])] = (bytes.fromhex(w[2][4:]).decode(), w[3][3:], w[4][3:])
+        elif len(w) >= 3 and w[0].startswith("d") and w[1] == "saved":
             saved[int(w[0][1:])] = bytes.fromhex(w[2][4:]).decode()
         elif len(w) >= 2 and w[0].startswith("d") and w[0][1:].isdigit():
             saved[int(w[0][1:])] = None if w[1] != "skip" else ("skip", o)
@@ -84,8 +115,11 @@ def main():
         if s is None:
             print("err save failed")
             continue
-        if isinstance(s, tuple):
+        if isinstance(s, tuple) and s[0] == "skip":
             print("err " + s[1].split(" ", 1)[1][:200])
+            continue
+        if r[0] == "i":
+            print(inertial(s, r[1]) if isinstance(s, tuple) else "err no masses reported")
             continue
         table, tag, path, _ = r
         root = ET.fromstring(s)
